@@ -137,6 +137,8 @@ contract_nodes_pair = Contract(
         # declared output in order (what simulated annealing relies on)
         "implies(legs is not None and len(result) != self.N, 'legs' in self.info[result] and self.info[result]['legs'] == unopt(legs))",
         "implies(len(result) == self.N, ('legs' in self.info[result]) == old(result in self.info and 'legs' in self.info[result]))",
+        # ... and if the root's legs were already cached they are left exactly as they were
+        "implies(len(result) == self.N and old(result in self.info and 'legs' in self.info[result]), self.info[result]['legs'] == old(self.info[result]['legs']))",
         "implies(cost is not None, 'flops' in self.info[result] and self.info[result]['flops'] == unopt(cost))",
         "implies(size is not None, 'size' in self.info[result] and self.info[result]['size'] == unopt(size))",
         # the tracked totals move by exactly the new node's figures
@@ -222,3 +224,8 @@ remove_node.gen = _gen_node("remove")
 contract_nodes_pair.gen = _gen_pair
 contract_nodes_pair.defaults = {"legs": "None", "cost": "None", "size": "None", "check": "False"}
 add_node.defaults = {"check": "False"}
+
+# natively the ORDER of the root's legs matters too (it is the declared output order): a dict comparison would not see it
+contract_nodes_pair.ensures_rt = list(getattr(contract_nodes_pair, "ensures_rt", [])) + [
+    "implies(len(result) == self.N and 'legs' in self.info[result], list(self.info[result]['legs']) == [ix for ix in self.output if ix not in self.sliced_inds])",
+]
